@@ -215,8 +215,17 @@ func cliIdenticalAnswersProbe(v6 bool, calls int) string {
 		for k := 0; k < calls && what == ""; k++ {
 			sent0 := len(conn.snapshot())
 			done := make(chan string, 1)
+			// the first exchange runs under a context with a deadline (which it meets with
+			// room to spare), the later ones without: whatever a call arms on the shared
+			// connection for its own deadline must not outlive the call (seeded change
+			// C11-16: SetWriteDeadline(ctx deadline) never cleared)
+			ctx, cancel := context.Background(), context.CancelFunc(func() {})
+			if k == 0 {
+				ctx, cancel = context.WithTimeout(context.Background(), 60*time.Millisecond)
+			}
 			go func() {
-				done <- cl.call(context.Background(), x, func(class byte, idx int) bool { return class == 'A' }, false)
+				defer cancel()
+				done <- cl.call(ctx, x, func(class byte, idx int) bool { return class == 'A' }, false)
 			}()
 			time.Sleep(5 * time.Millisecond)
 			conn.inject(append([]byte{}, answer...))
